@@ -104,6 +104,58 @@ RULES = {
 }
 
 
+def alphabet_gate(ctx, low, summ):
+    """The public API of the entity layer of the tree under check (go/ast) against props/C04/alphabet.json:
+    a new, renamed or removed public method, a changed signature, or a read-only method that now writes
+    through its receiver is a violation — an unverified mutating path cannot be added silently.  Every
+    listed mutator must also have been called in this run."""
+    exe = os.path.join(vlib.BUILD, "c04_astgate")
+    src = os.path.join(HERE, "astgate", "main.go")
+    if not os.path.exists(exe) or os.path.getmtime(exe) < os.path.getmtime(src):
+        rc, log = vlib.sh(["go", "build", "-o", exe, "."], cwd=os.path.join(HERE, "astgate"), env=vlib.goenv(), timeout=600)
+        if rc != 0:
+            ctx.violation(low + "-alphabet-gate-failed", "the API lister does not build: " + log[-600:], {"log": log[-2000:]}, found_input=False)
+            return
+    rc, log = vlib.sh([exe, vlib.repo()], timeout=120)
+    if rc != 0:
+        ctx.violation(low + "-alphabet-gate-failed", "the sources of the tree under check do not parse: " + log[-600:], {"log": log[-2000:]}, found_input=False)
+        return
+    listed = json.load(open(os.path.join(HERE, "alphabet.json")))["api"]
+    seen, drift = {}, []
+    for line in log.splitlines():
+        w = line.split()
+        if len(w) >= 3 and w[0] == "F":
+            seen[w[1]] = (w[2], 0)
+        elif len(w) >= 5 and w[0] == "M":
+            seen[w[1] + "." + w[2]] = (w[3], int(w[4]))
+    for k, (sig, wr) in sorted(seen.items()):
+        if k not in listed:
+            drift.append((k, "public %s %s%s is in no alphabet of the checks (new or renamed)" % ("method" if "." in k else "function", k, sig)))
+        elif listed[k]["sig"] != sig:
+            drift.append((k, "the signature of %s changed from %s to %s" % (k, listed[k]["sig"], sig)))
+        elif listed[k]["class"] == "getter" and wr:
+            drift.append((k, "%s is classified read-only but now writes through its receiver" % k))
+    for k in sorted(listed):
+        if k not in seen:
+            drift.append((k, "%s is listed in the alphabet but no longer exists (removed or renamed)" % k))
+    for k, what in drift[:12]:
+        ctx.violation("%s-alphabet-drift:%s" % (low, k), what + "; props/C04/alphabet.json and the model / harness have to be extended before the theorems speak about this code",
+                      {"method": k, "all_drift": [d[0] for d in drift]}, found_input=False)
+    # every listed mutator was exercised by this run
+    uncovered = []
+    if not ctx.replay:
+        ops_run = {k.split(".")[0] for k, v in summ.get("hist", {}).items() if v > 0}
+        for k, v in sorted(listed.items()):
+            if v["class"] != "getter" and v.get("op") not in ops_run:
+                uncovered.append(k)
+        for k in uncovered[:8]:
+            ctx.violation("%s-alphabet-uncovered:%s" % (low, k), "the run never called %s (harness operation %s)" % (k, listed[k].get("op")), {"method": k}, found_input=False)
+    cls = {}
+    for v in listed.values():
+        cls[v["class"]] = cls.get(v["class"], 0) + 1
+    ctx.coverage["alphabet_gate"] = {"public_api_entries": len(seen), "listed": len(listed), "by_class": cls, "drift": [d[0] for d in drift], "uncovered": uncovered}
+
+
 def vm_cross_check(ctx, low, trace, summ):
     """DESIGN 3.3: a sample of the histories, with the observed result classes and states, replayed on
     step2 inside Coq by vm_compute (no extraction, no OCaml); a tampered copy must be rejected."""
@@ -196,6 +248,7 @@ def run_property(ctx, pid):
             count_problems.append("harness generated %s, END line says %s, driver processed %s" % (want, endl, got))
     elif m and not (mc and m1):
         count_problems.append("the driver did not report how many results / states / geometry decisions it compared")
+    alphabet_gate(ctx, low, summ)
     # property-level failures found on the implementation
     mine = [f for f in summ["fails"] if f["prop"] == low]
     shrunk = 0
